@@ -347,6 +347,11 @@ def run_one(desc: dict, controller: "Recorder | None" = None) -> dict:
         )
         extra_cfg: dict = {}
         extra_exec: dict = {}
+        if desc.get("nan_target"):      # a target whose metric Hypothesis rejects: hypothesis.target() raises inside teardown()
+            def nan_target(ctx):
+                return float("nan")
+
+            extra_exec["targets"] = [nan_target]
         if desc.get("two_checks"):      # a bad answer (undocumented 5xx) fails TWO checks at once: the failure counter moves by two in one step
             from schemathesis.checks import not_a_server_error
             from schemathesis.specs.openapi.checks import status_code_conformance
